@@ -84,7 +84,13 @@ def _run_suite(spec, suite, tier, rng, ctx, budget_scale=1):
     if suite.corpus_prefix:
         cases += core.load_corpus(suite.corpus_prefix)
     ncorpus = len(cases)
-    cases += suite.gen_cases(rng, tier) if budget_scale == 1 else suite.gen_cases(rng, "thorough")
+    if budget_scale != 1:
+        cases += suite.gen_cases(rng, "thorough")
+    else:
+        cases += suite.gen_cases(rng, tier)
+        # the anchored headers differ from the validated tree: same generators, several more PRNG streams
+        for k in range(ctx.get("escalate", 0)):
+            cases += suite.gen_cases(random.Random(ctx.get("seed", 1) * 7919 + 31 * (k + 1) + len(suite.name)), tier)
     core.renumber(cases)
     t0 = time.time()
     impl = core.run_cases(exe, cases, chunk=suite.chunk, timeout=suite.timeout, args=suite.harness_args())
@@ -186,6 +192,12 @@ def run_check(spec, tier="quick", replay=None):
     ctx = {"tier": tier, "seed": sd, "violations": [], "notes": [], "driver_ok": True, "proof_broken": []}
     violations = ctx["violations"]       # list of dict(kind, msg, payload, signature)
     proof_broken = []
+
+    changed = core.changed_anchor_headers(pid)
+    if changed and tier == "quick":
+        ctx["escalate"] = int(os.environ.get("VERIF_ESCALATE", "5"))
+        ctx["notes"].append({"anchored_headers_changed": changed, "extra_prng_streams": ctx["escalate"]})
+        log("[%s] anchored headers changed (%s): deepening the quick tier x%d" % (pid, ", ".join(changed), ctx["escalate"] + 1))
 
     # 1. regenerate tables from the source
     if spec.extract:
